@@ -651,7 +651,9 @@ pub mod inner {
         /// If `row >= self.height()`.
         #[inline]
         fn index(&self, i: usize) -> &[T] {
-            let idx = self.to_index_strict(0, i as u32);
+            // A row index beyond u32 is out of bounds, not row `i mod 2^32`
+            let y = u32::try_from(i).unwrap_or(u32::MAX);
+            let idx = self.to_index_strict(0, y);
             let w = self.dims.0 as usize;
             &self.data[idx..][..w]
         }
